@@ -461,3 +461,9 @@ VARIANTS += [
     V("C03", "benign: receiver recognised by its name", VIS, "                and getattr(lvalue.expr.node, \"is_self\", False)\n", "                and lvalue.expr.name == \"self\"\n", None),
     V("C12", "superclass alias lookup skipped for resolved classes (the repair C12.FLAGS asks for)", VIS, "                if superclass_name in self.aliases:\n", "                if superclass_name in self.aliases and not isinstance(superclass.node, mp_nodes.TypeInfo):\n", None),
 ]
+VARIANTS += [
+    V("C05", "type aliases not expanded", VIS, "        if isinstance(mypy_type, mp_types.TypeAliasType) and not mypy_type.is_recursive:\n            mypy_type = mp_types.get_proper_type(mypy_type)\n", "", "C05.CTOR-TABLE"),
+    V("C01", "recursive type aliases expanded as well", VIS, "        if isinstance(mypy_type, mp_types.TypeAliasType) and not mypy_type.is_recursive:\n", "        if isinstance(mypy_type, mp_types.TypeAliasType):\n", "C01.TERM"),
+    V("C05", "Final argument translated from the unanalysed annotation", VIS, "return sds_types.FinalType(type_=self.mypy_type_to_abstract_type(mypy_type, unanalyzed_args[0]))", "return sds_types.FinalType(type_=self.mypy_type_to_abstract_type(unanalyzed_args[0]))", "C05.CTOR-TABLE"),
+    V("C05", "benign: Final argument translated from the analysed type alone", VIS, "return sds_types.FinalType(type_=self.mypy_type_to_abstract_type(mypy_type, unanalyzed_args[0]))", "return sds_types.FinalType(type_=self.mypy_type_to_abstract_type(mypy_type))", None),
+]
